@@ -25,7 +25,7 @@ ID = "C20"
 ENGINE = "E4 preemption-bounded schedule explorer (real threads, sys.settrace scheduling points)"
 TECHNIQUE = ("stateless exhaustive enumeration of all thread schedules up to a preemption bound on the real code under a controlled scheduler "
              "(CHESS-style iterative context bounding), sequential-result oracle")
-LEVEL_TEXT = ("All 105 unordered pairs of 14 bodies (netloc-derived accessors in two orders, str/hash, modifiers, query + update_query, "
+LEVEL_TEXT = ("All 120 unordered pairs of 15 bodies (netloc-derived accessors in two orders, str/hash, modifiers, query + update_query, "
               "construction of the same new string, cache_configure, cache_clear, IDN build, child/parent, comparisons, pickle) over a "
               "shared cold pool are explored exhaustively at preemption bound 1 (quick; the accessor-body pairs at bound 2) / 2 (thorough, per-tuple budget reported as a cap when hit, plus "
               "triples containing a cache operation at bound 1), on both backends; every complete schedule must give each body its solo "
@@ -54,13 +54,14 @@ class Harness:
         self.B = U.build(scheme="http", user="us", password="pw", host="host.example", port=8042, path="/a/b.txt", query_string="a=1&b=2",
                          fragment="frag")
         self.C = U("http://cached.example/x y?k=v")
+        self.Q = pickle.loads(pickle.dumps(U("http://big.example/p?" + "&".join("k%d=v%d" % (i, i) for i in range(40)))))   # a big query (size thresholds)
         # objects whose decoded views need multi-byte UTF-8 decoding (each thread decodes a different object)
         self.D1 = pickle.loads(pickle.dumps(U("http://ü@h.example/%C3%A9.%E2%82%AC?k=%C3%A9#%C3%A4")))
         self.D2 = pickle.loads(pickle.dumps(U("http://%C3%A9@h.example/%F0%9F%98%80?q=%E2%82%AC+x#%C3%BC")))
 
 
 def observe_pool(h):
-    return tuple((n, repr(v)) for u in (h.T, h.B, h.C, h.D1, h.D2) for n, v in observe(u))
+    return tuple((n, repr(v)) for u in (h.T, h.B, h.C, h.D1, h.D2, h.Q) for n, v in observe(u))
 
 
 BODIES = [
@@ -78,6 +79,7 @@ BODIES = [
     ("compare", lambda h: (h.T == h.B, h.T < h.B, hash(h.T) == hash(h.B), h.T == h.C)),
     ("decode_a", lambda h: (h.D1.path, h.D1.fragment, h.D1.user, h.D1.query_string, h.D1.name)),
     ("decode_b", lambda h: (h.D2.path, h.D2.user, h.D2.fragment, h.D2.query_string, h.D2.human_repr())),
+    ("query_big", lambda h: (len(h.Q.query), h.Q.query.get("k39"), str(h.Q.update_query(k0="x"))[-12:], len(h.Q.human_repr()))),
     ("pickle", lambda h: (str(pickle.loads(pickle.dumps(h.T))), h.C.path, h.C.human_repr())),
 ]
 CACHE_BODIES = {6, 7}
@@ -202,7 +204,8 @@ def task_free_run(iterations):
     sys.setswitchinterval(1e-6)
     try:
         q = impl.yarl._quoters
-        long_inputs = ["é" * 1500, "a b" * 3000, "%41" * 2000 + " ", "x" * 8191 + "é", "/p q" * 100, "k=v w&" * 500]
+        long_inputs = ["é" * 1500, "a b" * 3000, "%41" * 2000 + " ", "x" * 8191 + "é", "/p q" * 100, "k=v w&" * 500, "a" * 5000 + " ", "b" * 7000 + '"',
+                       "x y", "é"]
         expected = {(n, w): getattr(q, n)(w) for n in ("PATH_QUOTER", "QUERY_REQUOTER", "REQUOTER", "FRAGMENT_QUOTER") for w in long_inputs}
         errors = []
         h = Harness()
@@ -239,6 +242,65 @@ def task_free_run(iterations):
     return acc.result()
 
 
+def gil_released_inside(fn, arg):
+    """Deterministic probe: does the GIL get released while the single C call fn(arg) runs?  With a huge switch interval the
+    calling thread never yields involuntarily; a helper thread that increments a counter (and yields with sleep(0)) can
+    therefore only make progress during the call if the call itself releases the GIL."""
+    import time
+    counter = [0]
+    stop = [False]
+
+    def spin():
+        while not stop[0]:
+            counter[0] += 1
+            time.sleep(0)
+    old = sys.getswitchinterval()
+    t = threading.Thread(target=spin, daemon=True)
+    sys.setswitchinterval(1000.0)
+    released = False
+    try:
+        t.start()
+        while counter[0] < 3:
+            time.sleep(0)
+        for _ in range(20):
+            before = counter[0]
+            fn(arg)
+            after = counter[0]
+            if after != before:
+                released = True
+                break
+    finally:
+        stop[0] = True
+        sys.setswitchinterval(old)
+        t.join(5)
+    return released
+
+
+def task_gil_probe():
+    """The atomic-C-call assumption of E4, checked on the real extension: no quoter/unquoter call may release the GIL."""
+    acc = Acc(ID, impl.backend)
+    found = []
+    if impl.backend == "c":
+        for name, kw in list(impl.QUOTER_CONFIGS.items()):
+            q = impl.qc._Quoter(**kw)
+            for arg in ("a b" * 10, "a" * 5000 + " ", "é" * 3000, "%41" * 4000 + " ", "x" * 20000 + '"'):
+                acc.evals += 1
+                if gil_released_inside(q, arg):
+                    found.append((name, len(arg)))
+        for name, kw in list(impl.UNQUOTER_CONFIGS.items()):
+            u = impl.qc._Unquoter(**kw)
+            for arg in ("%C3%A9" * 10, "%41" * 5000, "a" * 20000 + "%20"):
+                acc.evals += 1
+                if gil_released_inside(u, arg):
+                    found.append((name, len(arg)))
+    acc.nontrivial = acc.evals
+    acc.counters["gil_probe_calls"] = acc.evals
+    acc.counters["gil_released_inside_c_call"] = len(found)
+    res = acc.result()
+    res["digests"] = {"gil_released": repr(found[:6])}
+    return res
+
+
 def gil_release_symbols(so):
     out = subprocess.run(["nm", "-D", "--undefined-only", so], stdout=subprocess.PIPE, text=True).stdout
     return sorted({l.split()[-1] for l in out.splitlines() if any(s in l for s in ("PyEval_SaveThread", "PyEval_RestoreThread", "PyEval_ReleaseThread",
@@ -263,6 +325,7 @@ def plan(ctx):
                 if set(ids) & CACHE_BODIES and set(ids) & {0, 1, 4, 5, 8}:
                     tasks.append(("checks.C20", "task_tuple", (ids, 1, 6000), b, "t"))
         tasks.append(("checks.C20", "task_free_run", (40 if quick else 400,), b, "f"))
+    tasks.append(("checks.C20", "task_gil_probe", (), "c", "g"))
     syms = gil_release_symbols(ctx.build["so"])
     ctx.extra_coverage["atomicity_assumption"] = {"gil_release_symbols_imported_by_extension": syms,
                                                   "holds": not syms, "free_run": "non-exhaustive stress pass, see counters.free_run_calls_not_exhaustive"}
@@ -272,6 +335,14 @@ def plan(ctx):
 
 
 def finish(ctx, merged, pools):
+    rel = merged.digests.get("gil_released", {}).get("c", "[]")
+    ctx.extra_coverage["atomicity_assumption"]["gil_released_inside_quoter_call (deterministic probe)"] = rel
+    if rel != "[]":
+        # the assumption behind E4 does not hold for this tree: say so, and look for actual damage with a much longer free-running pass
+        ctx.assumptions.append("WARNING: the compiled quoter releases the GIL inside a call (%s); E4's atomic-C-call assumption does not hold, "
+                               "the free-running pass was extended" % rel)
+        for _, b, res in pools.run([("checks.C20", "task_free_run", (1500,), "c", "f2")]):
+            merged.add("f2", b, res)
     if merged.counters.get("capped_tuples"):
         ctx.notes["cap_hit"] = "%d body tuple(s) hit the per-tuple schedule budget; %d schedule prefixes left unexplored there" % (
             merged.counters["capped_tuples"], merged.counters.get("schedules_left_unexplored", 0))
